@@ -5,6 +5,7 @@
 package c12
 
 import (
+	"math"
 	"fmt"
 	"reflect"
 	"testing"
@@ -92,6 +93,37 @@ func flat(n *Nest) []int {
 		return out
 	}
 	return nil
+}
+
+// buildShared is build, except that equal non-empty sub-nestings are built ONCE and the same
+// []any / []int object is placed at every position where they occur (the way a caller who reuses
+// a row variable builds its argument).
+func buildShared(n *Nest, memo map[string]any) any {
+	if n.Leaf != nil {
+		return *n.Leaf
+	}
+	key := core.JSON(n)
+	if v, ok := memo[key]; ok {
+		return v
+	}
+	var out any
+	if n.IsT {
+		out = append([]int{}, n.Ints...)
+		if len(n.Ints) == 0 {
+			return out
+		}
+	} else {
+		o := make([]any, 0, len(n.Kids))
+		for i := range n.Kids {
+			o = append(o, buildShared(&n.Kids[i], memo))
+		}
+		if len(o) == 0 {
+			return o
+		}
+		out = o
+	}
+	memo[key] = out
+	return out
 }
 
 func build(n *Nest) any {
@@ -250,6 +282,12 @@ func run(w *core.Worker, c Case) {
 			want := flat(c.Nest)
 			if err != nil || !reflect.DeepEqual(append([]int{}, got...), append([]int{}, want...)) {
 				fail("result", "Flatten(%s) = (%v, %v) want %v", core.JSON(c.Nest), got, err, want)
+				return
+			}
+			// the same nesting with equal sub-nestings being one shared object
+			got, err = gogu.Flatten[int](buildShared(c.Nest, map[string]any{}))
+			if err != nil || !reflect.DeepEqual(append([]int{}, got...), append([]int{}, want...)) {
+				fail("result-shared-sublists", "Flatten(%s) with equal sub-slices shared = (%v, %v) want %v", core.JSON(c.Nest), got, err, want)
 			}
 			nontrivial = len(want) >= 2
 		case "Merge":
@@ -295,7 +333,7 @@ func run(w *core.Worker, c Case) {
 			if k < 0 {
 				k = -k
 			}
-			if k > len(orig) {
+			if k > len(orig) || k < 0 { // k < 0: |math.MinInt| is not representable, it exceeds every length
 				k = len(orig)
 			}
 			var want []P
@@ -479,6 +517,14 @@ func TestProp(t *testing.T) {
 			}
 			for n := -9; n <= 9; n++ {
 				emit(Case{Fn: "Drop", S: s, N: n})
+			}
+			if len(s) <= 6 { // sizes and counts at the edge of the int range
+				for _, n := range []int{math.MaxInt, math.MaxInt - 1, math.MaxInt - 5, 1 << 62, 1 << 32} {
+					emit(Case{Fn: "Chunk", S: s, N: n})
+					emit(Case{Fn: "Drop", S: s, N: n})
+					emit(Case{Fn: "Drop", S: s, N: -n})
+				}
+				emit(Case{Fn: "Drop", S: s, N: math.MinInt})
 			}
 			for _, p := range preds {
 				for _, fn := range []string{"Partition", "Filter", "Reject", "DropWhile", "DropRightWhile"} {
